@@ -1,6 +1,7 @@
 package kdcproxy
 
 import (
+	"encoding/binary"
 	"fmt"
 	krbconfig "github.com/bolkedebruin/gokrb5/v8/config"
 	"github.com/jcmturner/gofork/encoding/asn1"
@@ -220,7 +221,9 @@ func awaitReply(conn net.Conn, isUdp bool, reply chan<- []byte) {
 	}
 	if isUdp {
 		// udp will be missing the length prefix so add it
-		resp = append([]byte{byte(len(resp))}, resp...)
+		prefix := make([]byte, 4)
+		binary.BigEndian.PutUint32(prefix, uint32(len(resp)))
+		resp = append(prefix, resp...)
 	}
 	reply <- resp
 }
